@@ -177,6 +177,21 @@ def family(engine, place, op, kind, cons, n):
     return cells
 
 
+VALUELESS_PLACES = ("discard", "discard_arg", "helper_void", "helper_discard")
+
+
+def with_value_twins(cells):
+    """placements that throw the value away print nothing an in-range control could be checked against: such a
+    control would also pass on an engine that does not implement the operation at all.  Every control of these
+    placements is therefore accompanied by the same in-range access in the main placement, whose value IS checked."""
+    out = list(cells)
+    for c in cells:
+        if c.control and c.place in VALUELESS_PLACES:
+            out.append(Cell(c.engine, c.op, c.kind, c.cons, c.n, c.idx, "ctl", prepops=c.prepops, control=True,
+                            group=c.group, place="main", prerem=c.prerem, repush=c.repush))
+    return out
+
+
 def grid(engine):
     """main placement: all cells (faults + controls) of one engine"""
     cells = []
@@ -209,7 +224,7 @@ def place_grid(engine):
                     variants = (("literal", 1), ("literal", 2), ("pushed", 2), ("never", 0))
                 for cons, n in variants:
                     if applicable(place, op, cons):
-                        cells += family(engine, place, op, kind, cons, n)
+                        cells += with_value_twins(family(engine, place, op, kind, cons, n))
     return cells
 
 
@@ -1146,9 +1161,14 @@ def run(ctx):
                 eng = c.engine
                 tag = c.name().split("|")[0]
                 o = results[c.ident()]
-                cv = [ctl_verdict[i] for i in dict.fromkeys(groups.get(c.group, []))]
-                # the empty literal has no index in range: one of the one-element arrays has to behave
-                vouched = bool(cv) and (any(v == "ok" for v in cv) if c.cons == "never" else all(v == "ok" for v in cv))
+                cids = list(dict.fromkeys(groups.get(c.group, [])))
+                cv = [ctl_verdict[i] for i in cids]
+                # per placement of the controls (the cell's own + the value-checked twins in the main placement): all
+                # must pass; the empty literal has no index in range: one of the one-element arrays has to behave
+                vouched = bool(cv)
+                for pl in set(i[1] for i in cids):
+                    sub = [ctl_verdict[i] for i in cids if i[1] == pl]
+                    vouched = vouched and (any(v == "ok" for v in sub) if c.cons == "never" else all(v == "ok" for v in sub))
                 reason = None
                 if o.skip:
                     reason = o.skip
